@@ -76,9 +76,8 @@ Definition pstep (target : str) (acc : list (str * option str) * pstate) (pc : n
 Definition is_parse_error (s : pstate) : bool :=
   match s with ParseError => true | _ => false end.
 
-(** [parse] on the text of an Element token, given the delimiters stored in the token. *)
-Definition parse_value (ds de value : str) : res (option element) :=
-  let target := trim_end de (trim_start ds value) in
+(** The attribute scan of [parse] on the text between the delimiters. *)
+Definition parse_target (target : str) : res (option element) :=
   '(pairs, last_state) <- foldM (pstep target) (char_indices target) ([], NameBegin) ;;
   pairs <- match last_state with
            | Name start => v <- slice_from target start ;; Ok (pairs ++ [(v, None)])
@@ -89,6 +88,10 @@ Definition parse_value (ds de value : str) : res (option element) :=
        | [] => Ok None
        | (name, _) :: attrs => Ok (Some (mkElement name attrs))
        end.
+
+(** [parse] on the text of an Element token, given the delimiters stored in the token. *)
+Definition parse_value (ds de value : str) : res (option element) :=
+  parse_target (trim_end de (trim_start ds value)).
 
 Definition parse_token (ds de : str) (t : token) : res (option element) :=
   if tk_elem t then parse_value ds de (tk_value t) else Ok None.
